@@ -133,7 +133,7 @@ Inductive prim : st -> st -> Prop :=
 | p_shutreq_clear s : prim s (set_shutreq false s)
 | p_sysshut s a : wq s = [] -> writable s = false -> prim s (ev (ESysShut a) s)
 | p_set_shut s : writable s = false -> prim s (set_shut true s)
-| p_shutcb s c : wq s = [] -> pq s = [] -> prim s (ev (EShutCb c) s)
+| p_shutcb s c : wq s = [] -> pq s = [] -> writable s = false -> prim s (ev (EShutCb c) s)
 | p_flush s : prim s (flush s)
 | p_closecb s : prim s (ev ECloseCb s)
 | p_q s : prim s (ev (EQ (wqs s)) s).
@@ -547,7 +547,7 @@ Proof.
   change (closing s2) with (closing s1).
   destruct (closing s1) eqn:Hcl.
   - set (s3 := ev (EShutCb UV_ECANCELED) s2).
-    assert (P3 : prim s2 s3) by (apply p_shutcb; auto).
+    assert (P3 : prim s2 s3) by (apply p_shutcb; [exact Hq1 | exact Hp1 | exact Hw1]).
     destruct (run_cb_sim s3) as [A [B _]]. split.
     + eapply steps_trans; [exact S1|]. eapply st_step; [exact P2|]. eapply st_step; [exact P3|]. exact A.
     + rewrite B. exact Hp1.
@@ -558,12 +558,12 @@ Proof.
     + set (s4 := set_shut true s3).
       assert (P4 : prim s3 s4) by (apply p_set_shut; auto).
       set (s5 := ev (EShutCb 0%Z) s4).
-      assert (P5 : prim s4 s5) by (apply p_shutcb; auto).
+      assert (P5 : prim s4 s5) by (apply p_shutcb; [exact Hq1 | exact Hp1 | exact Hw1]).
       destruct (run_cb_sim s5) as [A [B _]]. split.
       * eapply steps_trans; [exact S1|]. repeat (eapply st_step; [eassumption|]). exact A.
       * rewrite B. exact Hp1.
     + set (s5 := ev (EShutCb (shutans s2)) s3).
-      assert (P5 : prim s3 s5) by (apply p_shutcb; auto).
+      assert (P5 : prim s3 s5) by (apply p_shutcb; [exact Hq1 | exact Hp1 | exact Hw1]).
       destruct (run_cb_sim s5) as [A [B _]]. split.
       * eapply steps_trans; [exact S1|]. repeat (eapply st_step; [eassumption|]). exact A.
       * rewrite B. exact Hp1.
@@ -1561,6 +1561,15 @@ Proof.
   - intros c H. destruct (E c H). auto.
 Qed.
 
+(* while the stream is writable there has been no shutdown: anything goes *)
+Lemma Inv4_state_w s s' : tr s' = tr s -> writable s = true -> Inv4 s -> Inv4 s'.
+Proof.
+  intros Et Hw [A B C D E F]. constructor; rewrite ?Et; auto.
+  - intros H. rewrite (A H) in Hw. discriminate.
+  - intros a H. destruct (C a H) as [_ X]. rewrite X in Hw. discriminate.
+  - intros c H. destruct (E c H) as [_ X]. rewrite X in Hw. discriminate.
+Qed.
+
 Lemma Inv4_prim s s' : prim s s' -> Inv4 s -> Inv4 s'.
 Proof.
   intros P I. destruct P; unfold call0, finish_head, flush in *.
@@ -1584,10 +1593,8 @@ Proof.
     + apply Inv4_inert; simpl; auto. apply (Inv4_state s); auto.
   - (* enqueue: the stream is writable, so no shutdown so far *)
     destruct (check_none _ H) as [_ Hw].
-    apply (Inv4_state (ev (EWrite (next_id s) (sumN bufs)) (set_next_id (S (next_id s)) s))); auto.
-    + cbn. rewrite Hw. discriminate.
-    + apply Inv4_inert; simpl; auto. apply (Inv4_state s); auto.
-    + apply Inv4_inert; simpl; auto. apply (Inv4_state s); auto.
+    apply (Inv4_state_w (ev (EWrite (next_id s) (sumN bufs)) (set_next_id (S (next_id s)) s))); auto.
+    apply Inv4_inert; simpl; auto. apply (Inv4_state s); auto.
   - (* uv_write returned 0 *)
     apply Inv4_event; [ | simpl; auto | exact I].
     intros X HX. destruct X as [| | | | | | z | a | c | |]; simpl; auto.
